@@ -233,3 +233,76 @@ func c04KeysPattern(maxLen int) {
 
 func VF_C04_keys_pattern_quick()    { c04KeysPattern(4) }
 func VF_C04_keys_pattern_thorough() { c04KeysPattern(5) }
+
+// ---------------------------------------------------------------------------
+// VF_C04_long_forms: the option-rich forms that need more arguments than the generic generator's bound:
+// every numeric option value is an arbitrary int64 (as its canonical numeral) or a symbolic byte string.
+// "N" marks a numeric slot.
+var c04LongForms = [][]string{
+	{"zrange", "kz", "0", "9", "byscore", "limit", "N", "N"},
+	{"zrange", "kz", "9", "0", "byscore", "rev", "limit", "N", "N"},
+	{"zrange", "kz", "-inf", "+inf", "byscore", "limit", "N", "N"},
+	{"zrange", "kz", "(1", "2", "byscore", "limit", "N", "N"},
+	{"zrange", "kz", "N", "N", "rev", "withscores"},
+	{"zrange", "kz", "-", "+", "bylex", "limit", "N", "N"},
+	{"zadd", "kz", "gt", "ch", "incr", "N", "a"},
+	{"zadd", "kz", "nx", "N", "a", "N", "c"},
+	{"lpos", "kl", "a", "rank", "N", "count", "N", "maxlen", "N"},
+	{"lpos", "kl", "a", "maxlen", "N", "rank", "N"},
+	{"xadd", "kx", "nomkstream", "maxlen", "~", "N", "limit", "N", "*", "f", "v"},
+	{"xadd", "kx", "minid", "=", "N", "9-9", "f", "v"},
+	{"xadd", "kx", "maxlen", "N", "9-N", "f", "v"},
+	{"set", "ks", "v", "px", "N", "nx", "get"},
+	{"set", "ks", "v", "exat", "N", "xx", "keepttl"},
+	{"hrandfield", "kh", "N", "withvalues"},
+	{"srandmember", "ke", "N"},
+	{"spop", "ke", "N"},
+	{"lpop", "kl", "N"},
+	{"lrange", "kl", "N", "N"},
+	{"ltrim", "kl", "N", "N"},
+	{"lrem", "kl", "N", "a"},
+	{"lset", "kl", "N", "v"},
+	{"lindex", "kl", "N"},
+	{"getrange", "ks", "N", "N"},
+	{"setrange", "ks", "N", "v"},
+	{"expire", "ks", "N", "gt"},
+}
+
+func VF_C04_long_forms() {
+	vfOpt("hangcheck", 1)
+	vfOpt("hashuf", 1)
+	m := c04World()
+	form := c04LongForms[vfChoice("form", len(c04LongForms))]
+	var args [][]byte
+	nN := 0
+	for _, a := range form {
+		if a == "N" {
+			nN++
+		}
+	}
+	bytesSlot := vfChoice("bytes-slot", nN+1) // 0: every numeric slot is a numeral; i: the i-th slot is arbitrary bytes
+	slot := 0
+	for i, a := range form {
+		switch {
+		case a == "N":
+			slot++
+			if slot == bytesSlot {
+				args = append(args, vfBytes("opt"+string(rune('0'+i)), 0, 2))
+			} else {
+				args = append(args, vfNumStr(vfInt64("n"+string(rune('0'+i)))))
+			}
+		case a == "9-N":
+			args = append(args, append([]byte("9-"), vfNumStr(vfInt64("seq"))...))
+		case i == 0:
+			args = append(args, vfCase("cmdcase", a))
+		default:
+			args = append(args, bs(a))
+		}
+	}
+	hExec(m, args...)
+	vfAssert(vfLocksHeld() == 0, "stripe-left-locked-after-"+form[0])
+	for _, k := range []string{"ks", "kl", "ke", "kh", "kz", "kx"} {
+		hExec(m, bs("exists"), bs(k))
+	}
+	vfAssert(vfLocksHeld() == 0, "stripe-left-locked-after-probes")
+}
